@@ -225,6 +225,21 @@ var c11PlainQueries = []string{
 	"SELECT * FROM t x LEFT JOIN u y ON x.id < y.id INTO j",
 	"SELECT * FROM t x HASH_JOIN u y ON x.id = y.id INTO j",
 	"SELECT * FROM t x RIGHT JOIN u y ON x.id = y.id INTO j",
+	// selectors that flatten ranges under each; built-in functions applied to arrays and objects of the document
+	"SELECT id, `grid[each (0:1)]` AS g FROM t",
+	"SELECT id, `grid[each (begin:1)]` AS g, `grid[each (1:2)]` AS h FROM t",
+	"SELECT id, (SELECT `<-grid[each (0:1)]` AS g FROM dual) AS sub FROM t",
+	"SELECT id, CHANGETYPE(scores, 'double') AS x FROM t",
+	"SELECT id, CHANGETYPE(scores, 'integer') AS x FROM t",
+	"SELECT id, CHANGETYPE(nums, 'integer') AS x FROM t",
+	"SELECT id, CHANGETYPE(nums, 'string') AS x, CHANGETYPE(tags, 'array') AS y FROM t",
+	"SELECT id FROM t WHERE CHANGETYPE(nums, 'integer') IS NOT NULL",
+	"SELECT id, UNWIND(grid) AS u FROM t",
+	"SELECT id, FIRST(tags) AS f, LAST(tags) AS l, ELEMENTAT(tags, 0) AS e FROM t",
+	"SELECT id, ARRAY(tags, grid, nums) AS arr FROM t",
+	"SELECT id, HASH(o) AS h, ENCODE(o) AS e, DEFAULTKEY(o) AS dk FROM t",
+	"SELECT id, CONCAT(s, '-', a) AS c, IF(f, tags, nums) AS pick FROM t",
+	"SELECT id, TO_UPPER(s) AS u, TO_LOWER(s) AS l FROM t",
 	// WITH in sibling / nested statements
 	"WITH c AS (SELECT id, a FROM t) SELECT id FROM c UNION ALL SELECT id FROM u",
 	"WITH c AS (SELECT id FROM t) SELECT id FROM c UNION SELECT id FROM c",
@@ -277,9 +292,9 @@ func genC11(t *rapid.T) *Bundle {
 func corpusC11() []*Bundle {
 	doc := map[string]any{
 		"t": []any{
-			map[string]any{"id": 1.0, "a": 10.0, "s": "x", "f": true, "n": []any{map[string]any{"v": 1.0, "w": "p"}, map[string]any{"v": 2.0, "w": "q"}}, "tags": []any{"x", "x", "y", "z"}, "grid": []any{[]any{1.0, 2.0}, []any{3.0, 4.0}}, "o": map[string]any{"p": 1.0, "q": "k"}},
-			map[string]any{"id": 2.0, "a": 20.0, "s": "xy", "f": false, "n": []any{map[string]any{"v": 3.0, "w": "p"}}, "tags": []any{"y", "y"}, "grid": []any{[]any{5.0, 6.0}}, "o": map[string]any{"p": 2.0, "q": "m"}},
-			map[string]any{"id": 3.0, "a": 30.0, "s": "x", "f": true, "n": []any{}, "tags": []any{}, "grid": []any{}, "o": map[string]any{"p": 3.0, "q": "k"}},
+			map[string]any{"id": 1.0, "a": 10.0, "s": "x", "f": true, "n": []any{map[string]any{"v": 1.0, "w": "p"}, map[string]any{"v": 2.0, "w": "q"}}, "tags": []any{"x", "x", "y", "z"}, "grid": []any{[]any{1.0, 2.0}, []any{3.0, 4.0}}, "o": map[string]any{"p": 1.0, "q": "k"}, "scores": []any{"4", "5", "n/a"}, "nums": []any{1.5, 2.0}},
+			map[string]any{"id": 2.0, "a": 20.0, "s": "xy", "f": false, "n": []any{map[string]any{"v": 3.0, "w": "p"}}, "tags": []any{"y", "y"}, "grid": []any{[]any{5.0, 6.0}}, "o": map[string]any{"p": 2.0, "q": "m"}, "scores": []any{"7", "8", "9"}, "nums": []any{3.5}},
+			map[string]any{"id": 3.0, "a": 30.0, "s": "x", "f": true, "n": []any{}, "tags": []any{}, "grid": []any{}, "o": map[string]any{"p": 3.0, "q": "k"}, "scores": []any{}, "nums": []any{}},
 			map[string]any{"id": 1.0, "a": 10.0, "s": "x", "f": true, "n": []any{map[string]any{"v": 1.0, "w": "p"}, map[string]any{"v": 2.0, "w": "q"}}, "tags": []any{"x", "x", "y", "z"}, "grid": []any{[]any{1.0, 2.0}, []any{3.0, 4.0}}},
 		},
 		"u":    []any{map[string]any{"id": 1.0, "b": "k", "g": true}, map[string]any{"id": 3.0, "b": "m", "g": false}},
